@@ -33,7 +33,17 @@ def run(ctx, replay=None):
             else:
                 ctx.classify(key, "C01 oracle: " + note, {"case": c, "note": note})
     dis = sc.compare_in_coq(ctx, cases)
-    ctx.coverage.update(evaluations=len(cases), distinct_nontrivial=len(distinct),
+    # requests that END by their deadline (retries exhausted) next to later requests: the slot they
+    # give back must not keep advertising its old first index (c01_no_stale_keys) - call-granular
+    # histories with virtual-time deadlines, compared with the model slot by slot (status, key, bytes)
+    tcases = sc.run_histories(ctx, "c03", n // 2, 40)
+    for c in tcases or []:
+        for note in c["oracle"]:
+            key = note.split(":")[0]
+            if key.startswith("routing") or key.startswith("stale"):
+                ctx.classify(key, "C01 oracle (histories with deadlines): " + note, {"case": c, "note": note})
+    dis += sc.compare_in_coq(ctx, tcases) if tcases else 0
+    ctx.coverage.update(deadline_histories=len(tcases or []), evaluations=len(cases), distinct_nontrivial=len(distinct),
                         rule="one evaluation = one history over 1..4 slots biased towards complete round trips: responses (genuine, duplicate, late, reordered, mutated) delivered in any order and inside windows, completed requests read through first_pdu (right and wrong handles) or the datagram iterator, views trimmed by 0..len+2 and re-read after later operations; oracles on the implementation: the response completes the request with the same first index, returned data/working counters equal the delivered frame's datagrams, trimmed views show the rest of their data area, held views keep their bytes",
                         op_distribution=opk, responses_read=opk.get("take", 0) + opk.get("iter", 0),
                         view_reads=opk.get("vread", 0), disagreements_checked=dis,
